@@ -1,4 +1,5 @@
 import GixModel.Lemmas.C24Tree
+import GixModel.Lemmas.C24All
 /-
 C24 — Index files decode to exactly what git wrote, for any thread limit.  PROPERTY THEOREMS ONLY.
 
@@ -239,5 +240,113 @@ theorem file_roundtrip_reuc (tree : Option Tree) (ps : List ReucPath) (hwf : ∀
 example : (gitEncodeIndex (fun _ => List.replicate 20 7) 4 [[sampleEntry 3], [sampleEntry 2]] true
     (gitExts none none true) true (List.replicate 20 1)).length = 12 + 69 + 68 + (8 + 20) + 8 + 32 + 20 := by
   decide +kernel
+
+/-! ### the remaining extension payloads (round 3) -/
+
+/-- EWAH bitmaps: what `ewah_serialize` writes (bit size, word count, words, position of the last
+run-length word) is what `gix_bitmap::ewah::decode` returns, and the bytes after it are left. -/
+theorem ewah_roundtrip (e : Ewah) (h : WfEwah e) (rest : Bytes) :
+    ewahDecode (gitEncodeEwah e ++ rest) = some (e, rest) :=
+  ewahDecode_encoded e h rest
+
+/-- The split-index `link` extension: base checksum and, if present, the delete and replace
+bitmaps come back exactly. -/
+theorem link_roundtrip (l : Link) (h : WfLink l) : linkDecode (gitEncodeLink l) = some l :=
+  linkDecode_encoded l h
+
+example : WfLink { checksum := List.replicate 20 7, bitmaps := some (⟨3, [5], 0⟩, ⟨0, [], 0⟩) } := by
+  refine ⟨rfl, ⟨?_, ?_⟩⟩ <;> exact ⟨by decide, by decide, by decide, by decide⟩
+
+/-- The file-system-monitor extension, version 1 (64-bit timestamp) and version 2 (token string):
+version, token and dirty bitmap come back exactly. -/
+theorem fsmn_roundtrip (f : FsMonitor) (h : WfFsmn f) : fsmnDecode (gitEncodeFsmn f) = .ok (some f) :=
+  fsmnDecode_encoded f h
+
+example : WfFsmn { version := 2, token := [116, 111, 107], dirty := ⟨3, [5], 0⟩ } := by
+  refine ⟨⟨by decide, by decide, by decide, by decide⟩, by decide, Or.inr ⟨rfl, by decide⟩⟩
+
+/-- The sparse-directory marker: an empty `sdir` extension sets the sparse flag (and nothing else). -/
+theorem sdir_roundtrip (acc : Exts) : extStep acc sigSdir [] = .ok { acc with isSparse := true } :=
+  extStep_sdir acc
+
+/-- The directory blocks of the untracked cache: what `write_one_dir` writes for a directory tree
+(pre-order; names without NUL) decodes to the flattened list, every directory carrying the indices
+of its sub-directories — for any nesting up to the decoder's limit of 4096. -/
+theorem untr_dirs_roundtrip (n : UNode) (hwf : WfUNode n) (fuel depth : Nat) (rest : Bytes) (dirs : List UDir)
+    (hfuel : unodeCost n ≤ fuel) (hdepth : depth + unodeHeight n ≤ maxDepth) (hrest : 1 ≤ rest.length) :
+    udirBlock fuel depth (gitEncodeUNode n ++ rest) dirs = some (rest, dirs ++ flatNode dirs.length n) :=
+  udirBlock_encoded n hwf fuel depth rest dirs hfuel hdepth hrest
+
+/-- THE UNTRACKED CACHE: what `write_untracked_extension` writes — ident, the stat data and hashes
+of info/exclude and core.excludesFile, directory flags, per-directory exclude name, the directory
+tree, the three EWAH bitmaps, the stat data of the valid directories and the hashes of the hashed
+ones — decodes to exactly that content: header fields (stat = ctime, mtime, dev, ino, uid, gid,
+size in git's order), directories in pre-order with their sub-directory indices, `check_only`,
+stat and exclude-file hash set on the directories the bitmaps name. `UntrSpec.Ok`: bitmaps refer
+to existing directories and the stat/hash lists are the ones for the set bits (as git writes them). -/
+theorem untr_roundtrip (u : UntrSpec) (h : u.Ok) : untrDecode u.encode = .ok (some u.decoded) :=
+  untrDecode_encoded u h
+
+/-- THE FILE WITH EVERY EXTENSION: `from_bytes` (model) on the file git's writer produces with any
+combination of offset table, split-index link, cache tree, resolve-undo, untracked cache,
+fsmonitor, sparse marker and end-of-index entry yields — for every thread limit — the version,
+exactly the stored entries, and for each extension exactly the content git stored (cache tree in
+canonical form). Hypotheses as for `file_roundtrip` plus well-formedness of each payload. -/
+theorem file_roundtrip_all_exts (sha1 : Bytes → Bytes) (hsha : ∀ x, (sha1 x).length = 20) (version threads : Nat)
+    (ht : 1 ≤ threads) (blocks : List (List Entry)) (recordIeot recordEoie sparse : Bool)
+    (link : Option Link) (tree : Option Tree) (reuc : Option (List ReucPath)) (untr : Option UntrSpec)
+    (fsmn : Option FsMonitor) (trailer : Bytes)
+    (hv : version = 2 ∨ version = 3 ∨ version = 4)
+    (hwf : ∀ b ∈ blocks, AllWf b) (hfit : ∀ b ∈ blocks, PathsFit b) (htr : trailer.length = hashLen)
+    (hn : (blocks.map List.length).sum < 4294967296)
+    (hlink : optP link WfLink) (htree : optP tree fun t => WfTree t ∧ treeHeight t ≤ maxDepth)
+    (hreuc : optP reuc fun ps => ∀ p ∈ ps, WfReucPath p) (huntr : optP untr UntrSpec.Ok) (hfsmn : optP fsmn WfFsmn)
+    (hsize : (gitEncodeIndex sha1 version blocks recordIeot (gitExtsAll link tree reuc untr fsmn sparse) recordEoie
+      trailer).length < 4294967296)
+    (hno : recordEoie = false → eoieDecode sha1 (gitEncodeIndex sha1 version blocks recordIeot
+      (gitExtsAll link tree reuc untr fsmn sparse) recordEoie trailer) = none) :
+    fromBytes sha1 threads (gitEncodeIndex sha1 version blocks recordIeot (gitExtsAll link tree reuc untr fsmn sparse)
+        recordEoie trailer)
+      = .ok version blocks.flatten (isSparseEntries blocks.flatten || sparse)
+          (expectedAll link tree reuc untr fsmn sparse recordIeot recordEoie)
+          (if isNull trailer then none else some trailer) :=
+  fromBytes_all_exts sha1 hsha version threads ht blocks recordIeot recordEoie sparse link tree reuc untr fsmn trailer
+    hv hwf hfit htr hn hlink htree hreuc huntr hfsmn hsize hno
+
+/-- a root directory with one untracked file and one sub-directory; the root is valid (bit 0) -/
+def sampleUntr : UntrSpec :=
+  { ident := [76, 0], infoStat := ⟨1, 2, 3, 4, 5, 6, 7, 8, 9⟩, exclStat := ⟨0, 0, 0, 0, 0, 0, 0, 0, 0⟩, dirFlags := 6,
+    infoOid := List.replicate 20 9, exclOid := List.replicate 20 0, perDir := [46, 103],
+    root := .mk [] [[117]] [.mk [100] [] []],
+    valid := ⟨1, [8589934592, 1], 0⟩, checkOnly := ⟨0, [], 0⟩, hashValid := ⟨0, [], 0⟩,
+    stats := [(0, ⟨11, 12, 13, 14, 15, 16, 17, 18, 19⟩)], oids := [] }
+
+example : sampleUntr.Ok where
+  ident := by decide
+  infoStat := ⟨by decide, by decide, by decide, by decide, by decide, by decide, by decide, by decide, by decide⟩
+  exclStat := ⟨by decide, by decide, by decide, by decide, by decide, by decide, by decide, by decide, by decide⟩
+  dirFlags := by decide
+  infoOid := by decide
+  exclOid := by decide
+  perDir := by decide
+  root := by simp [sampleUntr, WfUNode, WfUNodes]
+  height := by simp [sampleUntr, unodeHeight, unodesHeight, maxDepth]
+  count := by simp [sampleUntr, UNode.count, UNode.counts]
+  valid := ⟨by decide, by decide, by decide, by decide⟩
+  checkOnly := ⟨by decide, by decide, by decide, by decide⟩
+  hashValid := ⟨by decide, by decide, by decide, by decide⟩
+  validBits := by simp [sampleUntr, UNode.count, UNode.counts]
+  checkBits := by simp [sampleUntr, UNode.count, UNode.counts]
+  hashBits := by simp [sampleUntr, UNode.count, UNode.counts]
+  checkIdx := by decide +kernel
+  statIdx := by decide +kernel
+  oidIdx := by decide +kernel
+  stats := by
+    intro p hp
+    simp only [sampleUntr, List.mem_cons, List.not_mem_nil, or_false] at hp
+    subst hp
+    exact ⟨by simp [sampleUntr, UNode.count, UNode.counts],
+      ⟨by decide, by decide, by decide, by decide, by decide, by decide, by decide, by decide, by decide⟩⟩
+  oids := by intro p hp; simp [sampleUntr] at hp
 
 end GixModel.Props.C24
